@@ -487,8 +487,24 @@ class RawServer:
                 c.send(ch, 'raw')
         if self.then == 'stall':
             c.stall()
+        elif self.then == 'close-now':   # orderly end of our side at once (FIN, no reset: what the client sent is drained first)
+            try:
+                c.s.shutdown(socket.SHUT_WR)
+            except OSError:
+                pass
+            c.wait_eof(2.0)
         else:
             c.wait_eof(1.0)
+
+
+class PerConn:
+    """A different behaviour per connection index (the last one repeats): e.g. protocol-mismatch text on the first connection, an SSH-1 server on the retry."""
+
+    def __init__(self, behaviours):
+        self.behaviours = list(behaviours)
+
+    def __call__(self, c):
+        return self.behaviours[min(c.idx, len(self.behaviours) - 1)](c)
 
 
 def scripted_client(port, banner, kexinit_payload, delay=0.0, tries=100):
